@@ -462,6 +462,10 @@ impl<const NB_PROOFS: usize> LightAggregator<NB_PROOFS> {
         // We conclude by checking the IPA proof which guarantess the validity of
         // acc_rhs_evaluated.
         let mut bases1 = [acc_rhs_bases, fixed_bases.values().cloned().collect()].concat();
+        // The number of bases is read from the (untrusted) proof.
+        if bases1.len() > self.lagrange_commitments.len() {
+            return Err(Error::Opening);
+        }
         let mut bases2 = self.lagrange_commitments[..bases1.len()].to_vec();
 
         let k = bases1.len().next_power_of_two();
